@@ -1,13 +1,14 @@
 #!/bin/bash
 # tools/seedtest.sh <seed-dir containing patch.diff + demo.py> <CHECK-ID>...
-# 1. in a fresh scratch worktree of /repo: apply patch, run the suite (must pass), run the demo (must fail);
-#    without the patch the demo must pass.  2. apply the patch to /repo, run the named checks, undo.
+# In a fresh scratch worktree of /repo HEAD: the demo must pass without the patch; with the patch the suite must
+# pass and the demo must fail; then the named checks are run AGAINST THE PATCHED WORKTREE (VERIF_REPO), writing
+# their evidence/replays to a scratch directory (VERIF_OUT).  /repo and /verif/evidence are never touched.
 set -u
 SEED=$(readlink -f "$1"); shift
-WT=$(mktemp -d /tmp/seedverify.XXXXXX)
-rmdir "$WT"
+WT=$(mktemp -d /tmp/seedverify.XXXXXX); rmdir "$WT"
+OUT=$(mktemp -d /tmp/seedout.XXXXXX)
 git -C /repo worktree add -q --detach "$WT" HEAD || exit 3
-cleanup() { git -C /repo worktree remove --force "$WT" >/dev/null 2>&1; git -C /repo checkout -- . ; }
+cleanup() { git -C /repo worktree remove --force "$WT" >/dev/null 2>&1; rm -rf "$OUT"; }
 trap cleanup EXIT
 mkdir -p "$WT/_seed"; cp "$SEED/demo.py" "$WT/_seed/demo.py"
 cd "$WT"
@@ -16,13 +17,9 @@ git apply "$SEED/patch.diff" || { echo "patch does not apply"; exit 3; }
 timeout 900 /venv/bin/python -m pytest -q -p no:cacheprovider --timeout=600 2>&1 | tail -1
 /venv/bin/python _seed/demo.py >/dev/null 2>&1; echo "demo with patch: exit $?  (want 1)"
 cd /verif
-git -C /repo apply "$SEED/patch.diff" || exit 3
-KEEP=$(mktemp -d /tmp/seedkeep.XXXXXX); cp -r /verif/evidence "$KEEP/" 2>/dev/null; cp -r /verif/replays "$KEEP/" 2>/dev/null
 for id in "$@"; do
-  out=$(timeout 3000 ./check "$id" 2>&1); rc=$?
+  out=$(VERIF_REPO="$WT" VERIF_OUT="$OUT" timeout 3000 ./check "$id" 2>&1); rc=$?
   echo "$id: exit=$rc violations=$(echo "$out" | grep -c '^VIOLATION') | $(echo "$out" | grep '^\[' | tail -1)"
-  echo "$out" | grep -A1 '^VIOLATION' | grep 'obligation=' | sort | uniq -c | sort -rn | head -3
-  [ $rc -eq 2 ] && echo "$out" | grep HARNESS-ERROR | head -3
+  echo "$out" | grep -A1 '^VIOLATION' | grep 'obligation=' | cut -c1-260 | sort | uniq -c | sort -rn | head -3
+  [ $rc -eq 2 ] && echo "$out" | grep HARNESS-ERROR | head -3 | cut -c1-400
 done
-git -C /repo checkout -- .
-rm -rf /verif/evidence /verif/replays; cp -r "$KEEP/evidence" /verif/ 2>/dev/null; cp -r "$KEEP/replays" /verif/ 2>/dev/null; rm -rf "$KEEP"
